@@ -41,10 +41,16 @@ inductive LoopOp
   | toHAP              -- Characteristic.to_HAP(include_value=True)   (GET /accessories)
   | toHAPnv            -- Characteristic.to_HAP(include_value=False)  (accessories_hash)
   | getValue           -- Characteristic.get_value                    (GET /characteristics)
-  | sub (c : Conn)     -- AccessoryDriver.async_subscribe_client_topic(c, topic, True)
-  | unsub (c : Conn)   -- AccessoryDriver.async_subscribe_client_topic(c, topic, False)
+  | sub (c : Conn)     -- PUT ev=true  → _notify → async_subscribe_client_topic(c, topic, True)
+  | unsub (c : Conn)   -- PUT ev=false → _notify → async_subscribe_client_topic(c, topic, False)
+                       --                 + http_server.discard_event (c's queued entry is dropped)
   | drain              -- run the callbacks handed over by call_soon_threadsafe (async_send_event)
-  | flush (c : Conn)   -- HAPServerProtocol._send_events of connection c
+  | flush (c : Conn)   -- HAPServerProtocol._send_events of connection c, called directly
+  | fire (c : Conn)    -- the 0.5 s coalescing timer of connection c expires (if it is armed)
+  | write (c : Conn) (v : Obj)
+                       -- controller write by connection c (PUT value=v → client_update_value →
+                       -- publish on the loop thread → discard_stale_event for the writer).
+                       -- One atomic step: see `Serial` below for the assumption that goes with it
 deriving DecidableEq, Repr
 
 /-- One `set_value(obj)` call of the worker; `valid = false`: `to_valid_value` /
@@ -113,7 +119,12 @@ structure Cfg where
   -- loop thread
   subs : List Conn
   pending : Conn → Option Obj
+  /-- `_event_timer` of the connection is set (a flush is scheduled) -/
+  timer : Conn → Bool
   delivered : Conn → List Obj
+  /-- ghost: what the controller on connection c last learned — the last event written to it or
+      its own last acknowledged write (initially: what it knew at the start) -/
+  knows : Conn → Obj
   results : List Res
   lpc : LPc
   lops : List LoopOp
@@ -126,6 +137,41 @@ def ret (s : Cfg) (r : Res) : Cfg := { s with results := s.results ++ [r], lpc :
 
 /-- `set.add` -/
 def addConn (l : List Conn) (c : Conn) : List Conn := if c ∈ l then l else l ++ [c]
+
+/-- `HAPServerProtocol._send_events` of connection c: reset the timer, write the queued entry if c
+    is still subscribed, clear the queue. -/
+def sendEvents (s : Cfg) (c : Conn) : Cfg :=
+  match s.pending c with
+  | none => { s with timer := fun x => if x = c then false else s.timer x }
+  | some d =>
+    if c ∈ s.subs then
+      { s with timer := fun x => if x = c then false else s.timer x,
+               pending := fun x => if x = c then none else s.pending x,
+               delivered := fun x => if x = c then s.delivered c ++ [d] else s.delivered x,
+               knows := fun x => if x = c then d else s.knows x }
+    else
+      { s with timer := fun x => if x = c then false else s.timer x,
+               pending := fun x => if x = c then none else s.pending x }
+
+/-- A controller write of value `v` by connection `w`, as one step: `client_update_value` assigns
+    and clears the caches, `publish` runs `async_send_event` directly (loop thread) for every
+    subscriber but the writer if the value changed, `discard_stale_event` drops the writer's queued
+    entry unless it carries the written value; the writer now knows `v`. -/
+def ctrlWrite (s : Cfg) (w : Conn) (v : Obj) : Cfg :=
+  let changed := decide (s.value.val ≠ v.val)
+  let pend1 : Conn → Option Obj :=
+    fun x => if changed && decide (x ∈ s.subs) && decide (x ≠ w) then some v else s.pending x
+  let tim1 : Conn → Bool :=
+    fun x => if changed && decide (x ∈ s.subs) && decide (x ≠ w) then true else s.timer x
+  { s with value := v, cache := false, cacheV := none,
+           pending := fun x =>
+             if x = w then
+               (match pend1 w with
+                | some d => if d.val ≠ v.val then none else some d
+                | none => none)
+             else pend1 x,
+           timer := tim1,
+           knows := fun x => if x = w then v else s.knows x }
 
 /-- One step of the event-loop thread.  `fix`: the repaired `to_HAP`. -/
 def stepLoop (fix : Bool) (s : Cfg) : Cfg × Label :=
@@ -144,19 +190,16 @@ def stepLoop (fix : Bool) (s : Cfg) : Cfg × Label :=
         if s.topicKey then ({ s with subs := addConn s.subs c }, .tau)
         else ({ s with lpc := .sKey c }, .tau)
       | .unsub c =>
+        -- discard_event: the connection's queued entry goes (its timer stays as it is)
+        let s := { s with pending := fun x => if x = c then none else s.pending x }
         if s.topicKey then
           let l := s.subs.erase c
           if l.isEmpty then ({ s with subs := l, lpc := .uKey }, .tau) else ({ s with subs := l }, .tau)
         else (s, .tau)
       | .drain => ({ s with lpc := .dLoop }, .tau)
-      | .flush c =>
-        match s.pending c with
-        | none => (s, .tau)
-        | some d =>
-          if c ∈ s.subs then
-            ({ s with pending := fun x => if x = c then none else s.pending x,
-                      delivered := fun x => if x = c then s.delivered c ++ [d] else s.delivered x }, .tau)
-          else ({ s with pending := fun x => if x = c then none else s.pending x }, .tau)
+      | .flush c => (sendEvents s c, .tau)
+      | .fire c => if s.timer c then (sendEvents s c, .tau) else (s, .tau)
+      | .write w v => (ctrlWrite s w v, .wr .value)
   | .hCheck =>
     match s.cacheV with
     | some _ => ({ s with lpc := .hRet }, .rd .cacheV)
@@ -182,7 +225,9 @@ def stepLoop (fix : Bool) (s : Cfg) : Cfg × Label :=
     | [] => ({ s with lpc := .idle }, .rd .queue)
     | d :: q =>
       -- async_send_event → push_event → queue_event for every subscriber (sender is None)
-      ({ s with queue := q, pending := fun x => if x ∈ s.subs then some d else s.pending x }, .wr .queue)
+      -- (queue_event arms the timer unless one is set)
+      ({ s with queue := q, pending := fun x => if x ∈ s.subs then some d else s.pending x,
+                timer := fun x => if x ∈ s.subs then true else s.timer x }, .wr .queue)
 
 /-- One step of the worker thread. -/
 def stepWorker (s : Cfg) : Cfg × Label :=
@@ -223,17 +268,44 @@ def Fresh (s : Cfg) : Prop := s.cacheV = none ∨ s.cacheV = some s.value
 instance (s : Cfg) : Decidable (Fresh s) := by unfold Fresh; infer_instance
 
 /-- The most recent item in connection `c`'s event pipeline: hand-off queue, then the pending
-    (coalesced) entry, then what was written to the transport, then what `c` knew to begin with. -/
-def latest (c : Conn) (base : Obj) (s : Cfg) : Obj :=
+    (coalesced) entry, then what the controller last learned (last event written to it or its own
+    last acknowledged write). -/
+def latest (c : Conn) (s : Cfg) : Obj :=
   match s.queue.getLast? with
   | some d => d
   | none =>
     match s.pending c with
     | some d => d
-    | none =>
-      match (s.delivered c).getLast? with
-      | some d => d
-      | none => base
+    | none => s.knows c
+
+/-- The loop thread is about to begin a controller write. -/
+def headIsWrite : List LoopOp → Bool
+  | .write _ _ :: _ => true
+  | _ => false
+
+def AtWrite (s : Cfg) : Prop := s.lpc = .idle ∧ headIsWrite s.lops = true
+
+instance (s : Cfg) : Decidable (AtWrite s) := by unfold AtWrite; infer_instance
+
+/-- The assumption that goes with the atomic `write` step: along the schedule, whenever the loop
+    thread begins a controller write the worker is between updates and every hand-off has been
+    drained — i.e. a controller write of this characteristic never overlaps a worker update or its
+    undrained hand-off.  (The overlapping shapes are the known finding of C12: the older worker
+    value can be delivered after the newer controller write.) -/
+def Serial (fix : Bool) : List Bool → Cfg → Prop
+  | [], _ => True
+  | b :: bs, s =>
+    (b = true → AtWrite s → s.wpc = .idle ∧ s.queue = []) ∧
+    Serial fix bs (step fix b s)
+
+instance decSerial (fix : Bool) : (bits : List Bool) → (s : Cfg) → Decidable (Serial fix bits s)
+  | [], _ => isTrue trivial
+  | b :: bs, s => by
+    unfold Serial
+    exact @instDecidableAnd _ _ inferInstance (decSerial fix bs _)
+
+/-- A loop program without controller writes. -/
+def NoWrite (l : List LoopOp) : Prop := ∀ op ∈ l, ∀ w v, op ≠ LoopOp.write w v
 
 /-- The value the characteristic must end up with: the last accepted update. -/
 def lastValid (v : Obj) : List Update → Obj
@@ -252,7 +324,8 @@ def changes (v : Obj) : List Update → List Obj
 /-- A start configuration: both threads idle, caches empty. -/
 def init (v : Obj) (lops : List LoopOp) (wups : List Update) (subs : List Conn) : Cfg :=
   { value := v, cacheV := none, cache := false, topicKey := !subs.isEmpty, queue := [], enq := [],
-    subs := subs, pending := fun _ => none, delivered := fun _ => [], results := [],
+    subs := subs, pending := fun _ => none, timer := fun _ => false, delivered := fun _ => [],
+    knows := fun _ => v, results := [],
     lpc := .idle, lops := lops, wpc := .idle, wups := wups }
 
 end Hap.Race
